@@ -29,7 +29,7 @@ ASSUMPTIONS = [
     'no-mutation are demanded there',
     '+inf labels must be rejected with ValueError (documented)',
 ]
-REQUIRED_COUNTERS = ['gp_designer_multi_metric_pipelines_checked', 'reused_warper_unwarp_compared', 'reused_warper_compared', 'default_rank_checked', 'arrays_with_ties_and_nan',
+REQUIRED_COUNTERS = ['gp_bandit_refit_scenarios_checked', 'gp_designer_multi_metric_pipelines_checked', 'reused_warper_unwarp_compared', 'reused_warper_compared', 'default_rank_checked', 'arrays_with_ties_and_nan',
                      'unwarp_roundtrips', 'no_reversal_checked',
                      'input_snapshot_checked', 'posinf_rejections']
 MIN_DISTINCT = {'quick': 300, 'thorough': 3000}
@@ -441,6 +441,82 @@ def check_gp_designer_layer(ctx, slot, n_cases, replay_case=None):
       return
 
 
+def check_gp_bandit_refit(ctx, slot, replay_case=None):
+  """The single-metric GP designer keeps ONE long-lived label pipeline and re-fits it in several
+  methods (update / predict / sample / set_priors). Whatever the order of those calls, what it
+  un-warps predictions with must be the fit of the study's own labels: predictions at the
+  observed trials stay on the scale of the observed values, and its pipeline inverts the
+  default pipeline's warping of the study labels."""
+  import jax
+  from vizier import algorithms as vza
+  from vizier import pyvizier as vz
+  from vizier._src.algorithms.designers import gp_bandit
+  from vizier._src.algorithms.designers.gp import output_warpers as ow
+  from vizier.jax import optimizers
+  rng = ctx.rng(30_000_000 + slot, 'gp-bandit')
+  if replay_case is not None:
+    ys, scale, shift, order = replay_case['ys'], replay_case['scale'], replay_case['shift'], replay_case['order']
+  else:
+    n = rng.choice([5, 7, 9])
+    ys = [round(rng.uniform(0.5, 3.0), 3) for _ in range(n)]
+    scale, shift = rng.choice([1000.0, 0.001, -50.0]), rng.choice([5000.0, 0.0, -300.0])
+    order = rng.choice([['predict', 'set_priors', 'predict'], ['sample', 'set_priors', 'predict'],
+                        ['predict', 'set_priors', 'sample', 'predict'], ['set_priors', 'predict']])
+  case = {'gp_bandit': True, 'ys': ys, 'scale': scale, 'shift': shift, 'order': order, 'slot': slot}
+  xs = [(i + 0.5) / len(ys) for i in range(len(ys))]
+
+  def mk(vals):
+    out = []
+    for i, (x, y) in enumerate(zip(xs, vals)):
+      t = vz.Trial(id=i + 1, parameters={'x': x})
+      t.complete(vz.Measurement(metrics={'obj': y}))
+      out.append(t)
+    return out
+  problem = vz.ProblemStatement()
+  problem.search_space.root.add_float_param('x', 0.0, 1.0)
+  problem.metric_information.append(vz.MetricInformation('obj', goal=vz.ObjectiveMetricGoal.MAXIMIZE))
+  study, prior = mk(ys), mk([scale * y + shift for y in ys])
+  try:
+    d = gp_bandit.VizierGPBandit(problem, ard_optimizer=optimizers.default_optimizer(maxiter=0),
+                                 rng=jax.random.PRNGKey(rng.getrandbits(30)))
+    d.update(vza.CompletedTrials(study), vza.ActiveTrials())
+    key = jax.random.PRNGKey(1)
+    last = None
+    for op in order:
+      if op == 'predict':
+        last = np.asarray(d.predict(study, rng=key, num_samples=100).mean, dtype=np.float64)
+      elif op == 'sample':
+        d.sample(study, rng=key, num_samples=10)
+      elif op == 'set_priors':
+        d.set_priors([vza.CompletedTrials(prior)])
+    warper = d._output_warper  # pylint: disable=protected-access
+  except AttributeError as e:
+    ctx.note(f'GP bandit label layer not reachable through the attributes known to the harness: {e}')
+    return
+  except Exception as e:  # pylint: disable=broad-except
+    ctx.note(f'GP bandit scenario raised {type(e).__name__}: {e}'[:200])
+    ctx.count('gp_bandit_scenarios_raised')
+    return
+  ctx.count('gp_bandit_refit_scenarios_checked')
+  lo, hi = min(ys), max(ys)
+  margin = 3 * (hi - lo) + 1e-6
+  if last is not None and not (np.all(np.isfinite(last)) and np.all((last > lo - margin) & (last < hi + margin))):
+    ctx.violation('gp-bandit:predictions-unwarped-with-another-label-set',
+                  f'after {order} the predictions at the observed trials are not on the scale of the observed '
+                  f'values [{lo}, {hi}]: {np.round(last, 3).tolist()[:8]}', case)
+  labels = np.asarray(ys, dtype=np.float64)[:, np.newaxis]
+  try:
+    with np.errstate(all='ignore'):
+      back = np.asarray(warper.unwarp(ow.create_default_warper().warp(labels.copy())), dtype=np.float64)
+    if not np.allclose(back, labels, rtol=1e-4, atol=1e-6 * max(abs(lo), abs(hi))):
+      ctx.violation('gp-bandit:kept-pipeline-does-not-invert-the-study-labels',
+                    f'after {order} the pipeline the designer un-warps with maps the warped study labels to '
+                    f'{np.round(back.flatten(), 4).tolist()[:8]} instead of {ys[:8]}', case)
+  except Exception:  # pylint: disable=broad-except
+    pass
+  ctx.case(['gp-bandit', order, scale, shift], nontrivial=True)
+
+
 def run_shard(ctx):
   if ctx.shard in (1, 2) or ctx.tier == 'thorough':
     check_gp_designer_layer(ctx, ctx.shard, 40 if ctx.tier == 'quick' else 400)
@@ -473,9 +549,15 @@ def run_shard(ctx):
     if i < 3 * ctx.nshards:
       ctx.sample({'class': cls, 'labels': [repr(float(v)) for v in y.flatten()][:12],
                   'subjects': len(names)})
+  # last (it costs a GP fit): the single-metric GP designer's long-lived pipeline
+  if ctx.shard == 3 or (ctx.tier == 'thorough' and ctx.shard in (4, 5)):
+    check_gp_bandit_refit(ctx, ctx.shard)
 
 
 def replay(ctx, case):
+  if case.get('gp_bandit'):
+    check_gp_bandit_refit(ctx, case.get('slot', 0), replay_case=case)
+    return
   if case.get('gp_layer'):
     check_gp_designer_layer(ctx, case.get('slot', 0), 1, replay_case=case)
     return
